@@ -330,16 +330,19 @@ impl<'dbg> FatDieRef<'dbg, Function> {
         pc: GlobalAddress,
         needle: &str,
     ) -> Option<FatDieRef<'dbg, Variable>> {
-        weak_error!(self.deref())?.for_each_children_recursive_t(|child| {
-            if child.tag() == gimli::DW_TAG_variable {
+        // A shadowed name has several declarations that are valid at `pc`. Their scopes are
+        // nested in each other, so the innermost one - the live binding - is the last that a
+        // depth-first walk meets.
+        let mut innermost = None;
+        weak_error!(self.deref())?.for_each_children_recursive(|child| {
+            if child.tag() == gimli::DW_TAG_variable && child.name().as_deref() == Some(needle) {
                 let var_ref = FatDieRef::new_var(self.debug_info, self.unit_idx, child.offset());
-
-                if child.name().as_deref() == Some(needle) && var_ref.valid_at(pc) {
-                    return Some(var_ref);
+                if var_ref.valid_at(pc) {
+                    innermost = Some(var_ref);
                 }
             }
-            None
-        })
+        });
+        innermost
     }
 
     pub fn parameters(&self) -> Vec<FatDieRef<'dbg, Argument>> {
